@@ -29,7 +29,7 @@ import (
 	"github.com/flamego/flamego/verifharness/internal/rt"
 )
 
-const rule = "round = an application with 0..7 separately added middleware, routes of every kind (static via the shortcut, optional static, regex with user groups, placeholder, match-all with capture, header-constrained, named routes whose handlers build URLs, Logger, Recovery, Renderer and Static (with ETags; plain files, a missing file, and a directory answered with its long index file) middleware, AutoHead on (some requests are HEAD), a route that renders JSON through the request-scoped Render service, a route that renders a value the encoder refuses and one whose encoding dawdles, a route whose handler panics, a route that reads the request body, yields and echoes it, a route answering through two return values with a dawdling before-function, Before handlers in front of the router (one passes, one answers some requests itself), an outer parent of the application injector holding a service the handlers resolve, a middleware that maps a per-request token read from a header, handlers that receive it by type and an application service through an interface it implements; some requests make the route's first handler note the token in the request's own parameter map, some are not-found after a partial match, some use a method the router has no table for; expected responses = every distinct request served alone by an instance that has served nothing else; instance B is fresh (nothing lazily cached yet) and is hit by 2..16 goroutines released together, each with its own list of 5..40 requests and runtime.Gosched() yields inside the handlers, under GOMAXPROCS in {2,4,16}. " +
+const rule = "round = an application with 0..7 separately added middleware, routes of every kind (static via the shortcut, optional static, regex with user groups, placeholder, match-all with capture, header-constrained, named routes whose handlers build URLs, two routes declared from one handler list and a shorter cut of it, Logger, Recovery, Renderer and Static (with ETags; plain files, a missing file, and a directory answered with its long index file) middleware, AutoHead on (some requests are HEAD), a route that renders JSON through the request-scoped Render service, a route that renders a value the encoder refuses and one whose encoding dawdles, a route whose handler panics, a route that reads the request body, yields and echoes it, a route answering through two return values with a dawdling before-function, Before handlers in front of the router (one passes, one answers some requests itself), an outer parent of the application injector holding a service the handlers resolve, a middleware that maps a per-request token read from a header, handlers that receive it by type and an application service through an interface it implements; some requests make the route's first handler note the token in the request's own parameter map, some are not-found after a partial match, some use a method the router has no table for; expected responses = every distinct request served alone by an instance that has served nothing else; instance B is fresh (nothing lazily cached yet) and is hit by 2..16 goroutines released together, each with its own list of 5..40 requests and runtime.Gosched() yields inside the handlers, under GOMAXPROCS in {2,4,16}. " +
 	"Oracle: (1) every concurrent response (status, all response headers and body = route marker + echoed parameters + token + built URL) equals the response to the same request served alone; (2) the Go race detector reports nothing (binary built with -race, GORACE=halt_on_error=1; the driver turns a report into a violation). " +
 	"non-trivial = a round in which >= 2 goroutines start with the same dynamic named route (the first use of lazily cached state is contended) and >= 3 kinds of route are hit; distinct by round text"
 
@@ -198,6 +198,11 @@ func build(r Round) *flamego.Flame {
 		}
 		return []flamego.Handler{pre, main}
 	}
+	// two routes declared from one handler list, the second from a shorter cut
+	// of it (a table of handlers shared between routes)
+	subList := append([]flamego.Handler{func(c flamego.Context) { yield() }}, echo("subfull", "")...)
+	f.Get("/sub/full", subList...)
+	f.Get("/sub/short", subList[:1]...)
 	f.Get("/", echo("root", "")...)
 	f.Get("/static/page", echo("static", "static")...).Name("static")
 	f.Get("/opt/?tail", echo("optstatic", "optstatic")...).Name("optstatic")
@@ -603,6 +608,13 @@ func genRound(t *rapid.T) Round {
 		r.Pool = append(r.Pool,
 			Req{M: "GET", P: p, Token: fmt.Sprintf("tok-%d", n), Hdr: "v1"},
 			Req{M: "GET", P: p, Token: fmt.Sprintf("tok-%d", n+1), Hdr: []string{"", "v2"}[rapid.IntRange(0, 1).Draw(t, "pairhdr")]})
+		n += 2
+	}
+	if rapid.IntRange(0, 3).Draw(t, "subpair") == 0 {
+		// on purpose: both routes that were declared from one handler list
+		r.Pool = append(r.Pool,
+			Req{M: "GET", P: "/sub/full", Token: fmt.Sprintf("tok-%d", n)},
+			Req{M: "GET", P: "/sub/short", Token: fmt.Sprintf("tok-%d", n+1)})
 		n += 2
 	}
 	if rapid.IntRange(0, 2).Draw(t, "indexpair") == 0 {
